@@ -68,7 +68,7 @@ Proof.
   destruct (shl1_ok (N.of_nat k)) as [Hs Hnz]; [lia|]. rewrite Hs.
   apply N.eqb_neq in Hnz. rewrite Hs in Hnz. rewrite Hnz.
   rewrite entInt_val by assumption.
-  assert (Hneg : (Z.of_nat (k * 3) <? 0)%Z = false) by lia. rewrite Hneg.
+  assert (Hneg : ((Z.of_nat (k * 3) <? 0) || (17592186044416 <? Z.of_nat (k * 3)))%Z = false) by lia. rewrite Hneg.
   rewrite Nat2Z.id.
   pose proof (tok_length _ (list_of_ok lg)) as Ht.
   change (@nil (list byte)) with (map (word_at (list_of lg)) []).
